@@ -351,6 +351,10 @@ ARGS_LOOP:
 		// different level. It is as if it was ignoring getoptions.Pass.
 		if optPair, is := isOption(iterator.Value(), mode, false); is {
 
+			// An option in a bundle can consume the arguments that follow and advance the iterator,
+			// keep the cli argument being processed for messages and pass through.
+			cliArg := iterator.Value()
+
 			// A single cli argument can hold multiple unknown options (bundling), pass it through only once.
 			passedThrough := false
 
@@ -360,7 +364,7 @@ ARGS_LOOP:
 				optionMatches := getAliasNameFromPartialEntry(currentProgramNode, p.Option)
 				if len(optionMatches) > 1 {
 					sort.Strings(optionMatches)
-					err := fmt.Errorf(text.ErrorAmbiguousArgument, iterator.Value(), optionMatches)
+					err := fmt.Errorf(text.ErrorAmbiguousArgument, cliArg, optionMatches)
 					return currentProgramNode, []string{}, err
 				}
 
@@ -370,13 +374,13 @@ ARGS_LOOP:
 						break ARGS_LOOP
 					}
 					// TODO: This shouldn't append new children but update existing ones and isOption needs to be able to check if the option expects a follow up argument.
-					opt := newUnknownCLIOption(currentProgramNode, p.Option, iterator.Value(), p.Args...)
+					opt := newUnknownCLIOption(currentProgramNode, p.Option, cliArg, p.Args...)
 					currentProgramNode.UnknownOptions = append(currentProgramNode.UnknownOptions, opt)
 
 					switch currentProgramNode.unknownMode {
 					case Pass, Warn:
 						if !passedThrough {
-							currentProgramNode.ChildText = append(currentProgramNode.ChildText, iterator.Value())
+							currentProgramNode.ChildText = append(currentProgramNode.ChildText, cliArg)
 							passedThrough = true
 						}
 					}
